@@ -77,9 +77,11 @@ func VH_C17a() {
 }
 
 // VH_C17b: dotted-decimal templates (ddd.ddd.ddd.ddd with free digits and a
-// variant with a leading zero / a letter) and length-boundary templates.
+// variant with a leading zero / a letter), label-structure templates (every
+// arrangement of letters, hyphens and dots between alphanumeric ends) and
+// length-boundary templates.
 func VH_C17b() {
-	form := vsym.Choice("form", 3)
+	form := vsym.Choice("form", 4)
 	var name string
 	switch form {
 	case 0: // IPv4-looking: three digits per field, first digit of each field free 0..9, rest free
@@ -91,6 +93,13 @@ func VH_C17b() {
 	case 1: // like an address but one free byte may be a letter or hyphen
 		d := vsym.String("e", 3)
 		name = "10" + d[0:1] + ".20" + d[1:2] + ".30" + d[2:3] + ".400"
+	case 3: // label structure: alphanumeric ends, every interior byte one of letter, hyphen, dot
+		ln := 5 + vsym.Choice("dl", vsym.Param("dotlen", 4))
+		in := vsym.String("in", ln-2)
+		for i := 0; i < ln-2; i++ {
+			vsym.Assume(in[i] == 'b' || in[i] == '-' || in[i] == '.')
+		}
+		name = "a" + in + "0"
 	default: // lengths 62, 63, 64 with two free positions and a free dot position
 		base := "abcdefghijklmnopqrstuvwxyz0123456789abcdefghijklmnopqrstuvwxyz01"
 		ln := 62 + vsym.Choice("ln", 3)
